@@ -117,6 +117,10 @@ func propSuppression(c *Case) {
 	cfg.failedUpdateTTL = []time.Duration{0, -1, time.Second, 90 * time.Second, time.Hour}[c.Pick("FailedUpdateTTL", 5)]
 	cfg.updateTTL = []time.Duration{0, 5 * time.Second}[c.Pick("UpdateTTL", 2)]
 	cfg.backendTTL = []time.Duration{10 * time.Second, 5 * time.Minute, time.Hour}[c.Pick("backendTTL", 3)]
+	cfg.observeMut = c.Weighted("ObserveMutability", 2, 1) == 1
+	cfg.stats = cfg.observeMut && c.Bool("stats")
+	// builders usually return a new value per invocation; a data source may also return the same value again
+	stableValue := c.Weighted("stable-value", 2, 1) == 1
 
 	enabled := cfg.failedUpdateTTL != -1
 	f := cfg.effFailedTTL()
@@ -172,6 +176,10 @@ func propSuppression(c *Case) {
 
 			before := invocations
 			tok := tokenFor(key, "seq", i)
+			if stableValue {
+				tok = tokenFor(key, "same", 0)
+				c.Class("builder-returns-same-value")
+			}
 			bErr := &buildErr{key: string(key), task: "seq", n: i}
 
 			// caller context: may carry a TTL, may already be cancelled (a failure is a failure and
